@@ -8,7 +8,7 @@
 From Ais Require Import Model.Base Model.Enums Model.Fields Model.Messages Model.Unarmor Model.Sentence
   Spec.Layouts Proofs.Bits Proofs.Reads Proofs.Layouts Proofs.Dispatch Proofs.MsgLevel Proofs.Interrogation Model.NomBits Proofs.NomBitsProof.
 From Ais Require Import Spec.Grammar Spec.Armor Proofs.EndToEnd Proofs.UnarmorProof.
-From Ais Require Import Proofs.Encode Proofs.RoundTrip Spec.Transmit Proofs.InOrder Proofs.Transmit Proofs.AirRoundTrip.
+From Ais Require Import Proofs.Encode Proofs.RoundTrip Proofs.RoundTripLists Spec.Transmit Proofs.InOrder Proofs.Transmit Proofs.AirRoundTrip.
 From Coq Require Import Lia.
 Local Open Scope N_scope.
 
@@ -219,6 +219,36 @@ Example C04_nonvacuous :
   let bs := bits_of_bytes [16; 0; 223; 249; 152; 126; 22; 236; 87; 64; 29; 205; 230; 40; 85; 160; 70; 79; 0; 35; 12; 49]%N in
   sl bs 0 6 = 4 /\ (168 <= length bs)%nat.
 Proof. vm_compute. split; [reflexivity|]. repeat constructor. Qed.
+
+(* ---------- round trips for the types that end in a list (Proofs/RoundTripLists.v) ----------
+   one to four acknowledgements (types 7, 13) or reservations (type 20) of any in-range values, followed by
+   less than one element's worth of further bits (byte padding): exactly the transmitted elements come back *)
+Theorem C04_roundtrip_type7 :
+  forall c q rep mmsi spare acks post,
+    in_range (head_fields 7 rep mmsi spare) -> Forall (fun a => in_range (ack_fields a)) acks ->
+    (1 <= length acks <= 4)%nat -> (length post < 32)%nat ->
+    parse_bits c q (enc (head_fields 7 rep mmsi spare ++ flat_map ack_fields acks) ++ post) =
+    Ok (BinaryAcknowledgeMessage {| am_message_type := 7; am_repeat_indicator := rep; am_mmsi := mmsi; am_acks := map ack_of acks |}).
+Proof. exact roundtrip_type7. Qed.
+Print Assumptions C04_roundtrip_type7.
+
+Theorem C04_roundtrip_type13 :
+  forall c q rep mmsi spare acks post,
+    in_range (head_fields 13 rep mmsi spare) -> Forall (fun a => in_range (ack_fields a)) acks ->
+    (1 <= length acks <= 4)%nat -> (length post < 32)%nat ->
+    parse_bits c q (enc (head_fields 13 rep mmsi spare ++ flat_map ack_fields acks) ++ post) =
+    Ok (SafetyRelatedAcknowledgment {| am_message_type := 13; am_repeat_indicator := rep; am_mmsi := mmsi; am_acks := map ack_of acks |}).
+Proof. exact roundtrip_type13. Qed.
+Print Assumptions C04_roundtrip_type13.
+
+Theorem C04_roundtrip_type20 :
+  forall c q rep mmsi spare (rs : list (N * N * N * N)) post,
+    in_range (head_fields 20 rep mmsi spare) -> Forall (fun r => in_range (reservation_fields r)) rs ->
+    (1 <= length rs <= 4)%nat -> (length post < 30)%nat ->
+    parse_bits c q (enc (head_fields 20 rep mmsi spare ++ flat_map reservation_fields rs) ++ post) =
+    Ok (DataLinkManagementMessage {| dl_message_type := 20; dl_repeat_indicator := rep; dl_mmsi := mmsi; dl_reservations := map reservation_of rs |}).
+Proof. exact roundtrip_type20. Qed.
+Print Assumptions C04_roundtrip_type20.
 
 (* BEGIN generated round trips *)
 (* ---------- round trips from field values (generated by tools/gen_roundtrip.py; proofs in Proofs/RoundTrip.v) ----------
